@@ -2,6 +2,7 @@ package props
 
 import (
 	"fmt"
+	"regexp"
 	"strings"
 
 	"ddcheck/core"
@@ -65,6 +66,14 @@ func C09(p *core.Program, r *core.Report) {
 				}
 			}
 			r.Add("W1", key, p.Pos(fn.Pos()), ok, why)
+			// ... and what only one of the views executes removes nothing from that shared tree
+			// (the views are rendered by two calls: the text first, the HTML afterwards)
+			if len(textRoots) > 0 {
+				src := c.Of(textRoots[0].root)
+				hits := viewExclusiveRemovals(p, fn, src)
+				r.Add("W1", typ+".GenerateOutput: neither view alone removes nodes from the tree both views render", p.Pos(fn.Pos()), len(hits) == 0,
+					"removal calls on "+shortVal(src)+" that only one view executes: "+strings.Join(hits, "; "))
+			}
 		case textEmpty:
 			// HTML view must be text free
 			ok, why := htmlViewTextFree(p, fn, typ)
@@ -223,4 +232,50 @@ func htmlViewTextFree(p *core.Program, fn *ssa.Function, typ string) (bool, stri
 		return true, "placeholder only"
 	}
 	return false, "unknown element kind " + typ + " with an empty text view"
+}
+
+var removalKeys = []string{"(*golang.org/x/net/html.Node).RemoveChild", "github.com/go-shiori/dom.DetachChild", "github.com/go-shiori/dom.RemoveNodes",
+	"github.com/go-shiori/dom.ReplaceChild", "github.com/go-shiori/dom.SetTextContent", "github.com/go-shiori/dom.SetInnerHTML"}
+
+// viewExclusiveRemovals lists the calls in a GenerateOutput implementation that take nodes out of
+// (or replace the content of) the tree rendered as `src` and are executed for one value of the
+// textOnly parameter only.
+func viewExclusiveRemovals(p *core.Program, fn *ssa.Function, src string) []string {
+	c := core.NewCanon(p)
+	k := paramIndexOfType(fn, "bool")
+	if k < 0 {
+		return nil
+	}
+	re := regexp.MustCompile(`^\$` + fmt.Sprint(k) + `$`)
+	cutT, m := core.CutAtoms(p, fn, re, true)
+	cutF, _ := core.CutAtoms(p, fn, re, false)
+	if len(m) == 0 {
+		return nil
+	}
+	var hits []string
+	for _, call := range core.Calls(fn, func(ci ssa.CallInstruction) bool { return core.IsCallTo(ci, removalKeys...) }) {
+		in, ok := call.(ssa.Instruction)
+		if !ok {
+			continue
+		}
+		touches := false
+		for _, a := range call.Common().Args {
+			if strings.Contains(c.Of(a), src) {
+				touches = true
+			}
+		}
+		if !touches {
+			continue
+		}
+		onlyHTML := !core.InstrReachable(fn, cutF, in)
+		onlyText := !core.InstrReachable(fn, cutT, in)
+		if onlyHTML != onlyText {
+			view := "HTML"
+			if onlyText {
+				view = "text"
+			}
+			hits = append(hits, fmt.Sprintf("%s in the %s view at %s", core.Callee(call).Name(), view, p.Pos(call.Pos())))
+		}
+	}
+	return hits
 }
